@@ -579,7 +579,7 @@ impl<'lexer> Lexer<'lexer> {
         2 => {
           if self.is_next_name_part_char() {
             state = 3;
-          } else if self.is_next_additional_name_symbol() {
+          } else if self.is_next_additional_name_symbol() && !self.is_next_comment() {
             state = 4;
           } else if self.is_next_whitespace() {
             state = 5;
@@ -601,7 +601,7 @@ impl<'lexer> Lexer<'lexer> {
           }
         }
         4 => {
-          if self.is_next_additional_name_symbol() {
+          if self.is_next_additional_name_symbol() && !self.is_next_comment() {
             self.position += 1;
             ch = self.peek_character()?;
             current_part.push(ch);
@@ -642,8 +642,8 @@ impl<'lexer> Lexer<'lexer> {
     // variable name is the name before the keyword `in`
     // ------------------------------------------------------------------------
     if self.till_in {
+      self.till_in = false;
       if let Some(index) = parts.iter().position(|value| value == "in") {
-        self.till_in = false;
         parts.truncate(index);
         self.position = consumed_positions[index - 1] + 1;
         // return the name of the local variable before `in` keyword
@@ -884,6 +884,11 @@ impl<'lexer> Lexer<'lexer> {
     } else {
       false
     }
+  }
+
+  /// Returns `true` when a comment starts right after the current character.
+  fn is_next_comment(&self) -> bool {
+    matches!((self.char_at(1), self.char_at(2)), (Some('/'), Some('/')) | (Some('/'), Some('*')))
   }
 
   /// Returns the character at the current position advanced with specified offset.
